@@ -154,7 +154,8 @@ def generate(cls, rng):
                         dict(kind="pb", k=rng.choice([1, 2, 3]),
                              horizon=rng.choice([300, 1500])),
                         dict(kind="pct", d=rng.choice([2, 3]),
-                             horizon=rng.choice([300, 1500]))])
+                             horizon=rng.choice([300, 1500])),
+                        dict(kind="pbx", k=rng.choice([1, 1, 2, 3])), dict(kind="pbx", k=rng.choice([1, 1, 2, 3]))])
     return dict(init=init, threads=threads,
                 sched=dict(strategy=strat, seed=rng.getrandbits(32)))
 
